@@ -407,8 +407,8 @@ def getitem_ops_tol(rng, spec, subs, tier):
 
 
 def cases(rng, tier):
-    nex = 26 if tier == "quick" else 260
-    ntol = 30 if tier == "quick" else 320
+    nex = 26 if tier == "quick" else 200
+    ntol = 30 if tier == "quick" else 250
     fams = ["sel", "getitem", "pad", "resample"]
     for k in range(nex):
         spec = gen_exact_mesh(rng)
